@@ -60,6 +60,12 @@ META = {
                      "fval/fsd are mean and standard error of yval_vec; the returned x is an earlier recorded iterate; the sample reserve is carved out of the budget.",
                 note=PROOF_NOTE + " mean/std are uninterpreted functions of the vector (the clause is that the code applies them to exactly that vector). The supplementary SD entry of ysd_vec "
                      "when only one final sample is configured is checked by the bounded panel only."),
+    "C11": dict(level="proof",
+                text="Lemmas over the real lambda bodies of the transformer (called symbolically from the postconditions) in real arithmetic with uninterpreted, monotone log/exp: unit "
+                     "mapping of the plausible bounds, strict monotonicity of both directions, exact affine round trip, the decade/positivity flag rule as a loop invariant, NaN-free "
+                     "transformed bounds, and clamping of both directions for every input. Floating-point rounding (1e-9 of the width) and the log round trip are a bounded sampling check.",
+                note=PROOF_NOTE + " Reals for floats; log/exp uninterpreted with ground monotonicity and inverse facts; the flag vector passed in is NaN or 0 per coordinate (as BADS passes it); "
+                     "the constructor's numeric self-test is treated as opaque (it only decides whether ValueError is raised)."),
     "C04": dict(level="proof",
                 text="For deterministic targets the returned point is a logged evaluation with exactly the logged value and no logged value is lower: an invariant "
                      "(incumbent logged, minimal, fval == yval, fsd == 0) proved for the initial design, every search step, every poll loop iteration and the main loop, "
